@@ -1,4 +1,5 @@
 import ComposeVerif.Lemmas.PathsSymlink
+import ComposeVerif.Lemmas.PathsSymStr
 import ComposeVerif.Lemmas.AuditCmd
 /-!
 # C12 — develop.watch paths through symbolic links: the repaired `ResolveSymbolicLink` is a projection
@@ -32,5 +33,79 @@ example : resolveSym (ofTable [([['a']], some [['b']]), ([['b'], ['c']], some [[
 
 /-- a link whose evaluation fails is an error, not a path -/
 example : resolveSym (ofTable [([['l']], none)]) [['l'], ['x']] = .err := by decide
+
+/-! ## round 5: the link-table model *inside* the resolver model — trees with symbolic links
+
+`Sym.resolveStr fs` is `utils.ResolveSymbolicLink` on strings: a relative path is returned as it is (repair of round 5:
+before it `getSymbolinkLink` looked the components of a relative first-stage result up from the working directory of
+the process — `Neg.compose_failed_cwd_symlink`), an absolute path is resolved on its components by the repaired loop.
+`cfgOf fs W home` is the resolver configuration with `sym := resolveStr fs`. -/
+
+/-- a relative path — what the first resolution stage of an included / extended file produces — is not looked up -/
+theorem symlink_relative_untouched (fs : FS) (s : Str) (h : isAbs s = false) : resolveStr fs s = some s := by
+  simp [resolveStr, h]
+
+/-- on an absolute path the answer is absolute and a fixpoint (string level; `Physical`: `EvalSymlinks` answers physical
+paths, `ProperFS`: its answers consist of proper components) -/
+theorem symlink_abs_fixpoint (fs : FS) (hph : Physical fs) (hp : ProperFS fs) (s r : Str) (ha : isAbs s = true)
+    (h : resolveStr fs s = some r) : isAbs r = true ∧ resolveStr fs r = some r :=
+  (resolveStr_symOK fs hph hp).abs s r ha h
+
+/-- **two-stage = one-stage for every tree, with symbolic links**, for any resolution `sym` that leaves relative paths
+alone and sends an absolute path to an absolute fixpoint: resolving against the relative directory `R` and then against
+`W` is resolving against `Join(W, R)` — same tree, same error (`resolve_compose_tree` is the case `sym = some`) -/
+theorem resolve_compose_tree_sym (home : Option Str) (sym : Str → Option Str) (hs : SymOK sym) (W R : Str)
+    (hW : W ≠ []) (hR : R ≠ []) (hRr : isAbs R = false) (hhome : ∀ h, home = some h → h ≠ []) (v v1 : Val)
+    (h : resolve ⟨R, home, fun _ => false, sym⟩ v = .ok v1) :
+    resolve ⟨W, home, fun _ => false, sym⟩ v1 = resolve ⟨join W R, home, fun _ => false, sym⟩ v :=
+  walk_compose _ _ _ _ _ v v1
+    ((rowsOK_of_forall _ (composeAt_all_sym home (fun _ => false) sym W R hW hR hRr hs hhome (fun _ => rfl)) _).1 _ v) h
+
+/-- … in particular for the link-table model of the repaired `ResolveSymbolicLink`, any link table -/
+theorem resolve_compose_tree_symlinks (fs : FS) (hph : Physical fs) (hp : ProperFS fs) (home : Option Str) (W R : Str)
+    (hW : W ≠ []) (hR : R ≠ []) (hRr : isAbs R = false) (hhome : ∀ h, home = some h → h ≠ []) (v v1 : Val)
+    (h : resolve (cfgOf fs R home) v = .ok v1) :
+    resolve (cfgOf fs W home) v1 = resolve (cfgOf fs (join W R) home) v :=
+  resolve_compose_tree_sym home (resolveStr fs) (resolveStr_symOK fs hph hp) W R hW hR hRr hhome v v1 h
+
+/-- the hypothesis `IdemOK` of `resolve_idem` holds for the link-table model: no assumption about `sym` is left -/
+theorem idemOK_linktable (fs : FS) (hph : Physical fs) (hp : ProperFS fs) (W : Str) (home : Option Str)
+    (hW : isAbs W = true) : IdemOK (cfgOf fs W home) where
+  wd := hW
+  sym := fun s r h => by
+    cases ha : isAbs s with
+    | true =>
+      obtain ⟨h1, h2⟩ := (resolveStr_symOK fs hph hp).abs s r ha h
+      exact ⟨h2, fun _ => h1, fun e => by subst e; simp [isAbs] at ha⟩
+    | false =>
+      have e := (resolveStr_symOK fs hph hp).rel s ha
+      have : r = s := by
+        have h' : resolveStr fs s = some r := h
+        rw [e] at h'; exact (Option.some.inj h').symm
+      subst this
+      exact ⟨e, fun hh => by simp at hh, fun e => e⟩
+
+/-- **resolving an already resolved model changes nothing — symbolic links included** (absolute base, any link table) -/
+theorem resolve_idem_symlinks (fs : FS) (hph : Physical fs) (hp : ProperFS fs) (W : Str) (home : Option Str)
+    (hW : isAbs W = true) (v v' : Val) (h : resolve (cfgOf fs W home) v = .ok v') :
+    resolve (cfgOf fs W home) v' = .ok v' :=
+  walk_idem _ _ (idemOK_linktable fs hph hp W home hW) _ v v' h
+
+/-- non-vacuity: the one-link table `/l → /t` (`oneLink`) is physical and proper -/
+example : Physical oneLink ∧ ProperFS oneLink := by
+  refine ⟨fun p t h => ?_, fun p t h c hc => ?_⟩
+  · obtain ⟨_, rfl⟩ := oneLink_cases p t h
+    intro k h1 h2
+    have : k = 1 := by simp at h2; omega
+    subst this
+    decide
+  · obtain ⟨_, rfl⟩ := oneLink_cases p t h
+    simp only [List.mem_singleton] at hc
+    subst hc
+    exact ⟨⟨by decide, by decide, by decide⟩, by decide⟩
+
+/-- `/l/x` is `/t/x`; the relative `l/x` (a first-stage result) is not touched -/
+example : resolveStr oneLink ['/', 'l', '/', 'x'] = some ['/', 't', '/', 'x'] ∧
+    resolveStr oneLink ['l', '/', 'x'] = some ['l', '/', 'x'] := by decide
 
 end CV.Paths.Sym
